@@ -289,8 +289,21 @@ pub fn ev_read(t: &mut Tracer, r: &mut Rut, stream: &[u8], avail: usize, outl: u
     }
 }
 
+/// the chunked framing under different statuses and neighbouring fields: none of them changes how the body is read
+fn chunk_head(k: u64) -> Vec<u8> {
+    match k % 9 {
+        1 => b"HTTP/1.1 205 Reset Content\r\nTransfer-Encoding: chunked\r\n\r\n".to_vec(),
+        2 => b"HTTP/1.1 201 Created\r\nLocation: /made\r\nTransfer-Encoding: Chunked\r\n\r\n".to_vec(),
+        3 => b"HTTP/1.1 404 Not Found\r\nX-Cache:\r\nTransfer-Encoding: chunked\r\n\r\n".to_vec(),
+        4 => b"HTTP/1.1 206 Partial Content\r\nTransfer-Encoding: gzip, chunked\r\nContent-Length: 3\r\n\r\n".to_vec(),
+        5 => b"HTTP/1.1 500 Oops\r\nConnection: close\r\nTransfer-Encoding: chunked\r\n\r\n".to_vec(),
+        6 => b"\r\nHTTP/1.1 200 OK\r\nTransfer-Encoding: chunked\r\n\r\n".to_vec(),
+        _ => CHUNK_HEAD.to_vec(),
+    }
+}
+
 fn start_chunked(t: &mut Tracer, api: &str, c: &Coding, note: &str) -> Option<Rut> {
-    match recv_body(api, CHUNK_HEAD) {
+    match recv_body(api, &chunk_head(t.cases)) {
         Some(r) => {
             t.case(json!({"ev":"case","comp":"br","kind":"chunked","lay":lay_json(c),"N":limbs(0),"api":api,"note":note,"ready0":r.ready()}));
             Some(r)
@@ -427,6 +440,7 @@ pub fn random_coding(rng: &mut StdRng) -> Coding {
             2 => b"\t;x".to_vec(),
             3 => b" ;a=b".to_vec(),
             4 => b" \t; x=1".to_vec(),
+            5 => b";n=\"\xff\xe9\"".to_vec(),
             _ => vec![],
         };
         // keep the size line within the code's documented sanity limit (20 bytes)
@@ -642,7 +656,12 @@ pub fn c07(o: &Opts, t: &mut Tracer) -> Value {
 
 fn c08_length(t: &mut Tracer, api: &str, n: u64, arrive: &[usize], outs: &[usize], body: &[u8], tail: &[u8]) {
     // the same length framing under different response versions / neighbouring header fields
-    let head = match ((n % 1000) as usize + arrive.len() + outs.len()) % 9 {
+    let head = match ((n % 1000) as usize + arrive.len() + outs.len()) % 13 {
+        9 => format!("HTTP/1.1 205 Reset Content\r\nContent-Length: {}\r\n\r\n", n),
+        10 => format!("HTTP/1.1 206 Partial Content\r\nX-Cache:\r\nVary: \r\nContent-Length: {}\r\n\r\n", n),
+        // empty lines ahead of the status line (left over after a previous body) belong to the head that follows
+        11 => format!("\r\nHTTP/1.1 200 OK\r\nContent-Length: {}\r\n\r\n", n),
+        12 => format!("\r\n\r\nHTTP/1.1 203 Non-Authoritative\r\nContent-Length: {}\r\nContent-Length: {}\r\n\r\n", n, n),
         // a transfer coding other than chunked next to the length: still exactly Content-Length bytes (C06)
         8 => format!("HTTP/1.1 200 OK\r\nTransfer-Encoding: {}\r\nContent-Length: {}\r\n\r\n", ["gzip", "identity, deflate", "x-custom"][(n % 3) as usize], n),
         // a redirect with a body: the body is read like any other before the flow moves on
@@ -716,10 +735,11 @@ fn c08_length(t: &mut Tracer, api: &str, n: u64, arrive: &[usize], outs: &[usize
 
 fn c08_close(t: &mut Tracer, api: &str, http10: bool, rng: &mut StdRng, body: &[u8]) {
     // no framing header at all: delimited by the close, whatever else the server says about the connection
-    let heads: [&[u8]; 6] = [b"HTTP/1.1 200 OK\r\n\r\n", b"HTTP/1.1 200 OK\r\nConnection: keep-alive\r\n\r\n", b"HTTP/1.1 404 Not Found\r\nConnection: Keep-Alive, Upgrade\r\nServer: x\r\n\r\n",
-                            b"HTTP/1.1 200 OK\r\nKeep-Alive: timeout=5\r\nConnection: keep-alive\r\n\r\n", b"HTTP/1.1 500 Oops\r\nConnection: close\r\n\r\n", b"HTTP/1.1 200 OK\r\nTransfer-Encoding: gzip\r\n\r\n"];
+    let heads: [&[u8]; 8] = [b"HTTP/1.1 200 OK\r\n\r\n", b"HTTP/1.1 200 OK\r\nConnection: keep-alive\r\n\r\n", b"HTTP/1.1 404 Not Found\r\nConnection: Keep-Alive, Upgrade\r\nServer: x\r\n\r\n",
+                            b"HTTP/1.1 200 OK\r\nKeep-Alive: timeout=5\r\nConnection: keep-alive\r\n\r\n", b"HTTP/1.1 500 Oops\r\nConnection: close\r\n\r\n", b"HTTP/1.1 200 OK\r\nTransfer-Encoding: gzip\r\n\r\n",
+                            b"HTTP/1.1 205 Reset Content\r\nX-Cache:\r\n\r\n", b"\r\nHTTP/1.1 200 OK\r\nServer: x\r\n\r\n"];
     let heads10: [&[u8]; 3] = [b"HTTP/1.0 200 OK\r\nServer: x\r\n\r\n", b"HTTP/1.0 200 OK\r\nConnection: keep-alive\r\n\r\n", b"HTTP/1.0 200 OK\r\nTransfer-Encoding: chunked\r\n\r\n"];
-    let head: &[u8] = if http10 { heads10[(t.cases % 3) as usize] } else { heads[(t.cases % 6) as usize] };
+    let head: &[u8] = if http10 { heads10[(t.cases % 3) as usize] } else { heads[(t.cases % 8) as usize] };
     if head.windows(10).any(|w| w.eq_ignore_ascii_case(b"keep-alive")) {
         t.class("close:keep-alive-promised");
     }
